@@ -32,7 +32,7 @@ ASSUMPTIONS = [
     "kappa tolerance is region dependent (Simpson on sparse adaptive nodes in the code): "
     "1e-2 relative for shock-only flows (observed max 1.8e-3), 5e-2 when a rarefaction wave contributes",
 ]
-CASE_TIMEOUT = 600
+CASE_TIMEOUT = 240
 CHUNK = 2
 SETTINGS = [(1e-6, 1e-6), (1e-6, 1e-10), (1e-8, 1e-10)]
 FLOORS = {
@@ -79,6 +79,46 @@ def kappa_ref(probe, m, cls):
     if cls != "deflagration":
         I_rw = F.rarefaction_I(eos.ref, vw, m["vm"], m["Tm"])
     return 4.0 * (I_sw + I_rw) / (vw ** 3 * aln * wn), I_sw, I_rw
+
+
+def template_checks(probe, spec, vw, rtol, atol, Tn, mon, viol, row, ref, acc=False):
+    """kappa and 'flow reaches T_n' for the closed-form template solver on a template-form
+    EOS, each judged on the template's own matching.  acc=True builds a template object at
+    rtol 1e-8 (kappa's quadrature error depends on the ODE node density)."""
+    import WallGo
+    tmpl = probe.tmpl
+    if acc:
+        tmpl = WallGo.HydrodynamicsTemplateModel(probe.eos, rtol=1e-8, atol=min(atol, 1e-10))
+        rtol = 1e-8
+    if vw < tmpl.vMin:
+        return
+    kt = float(tmpl.efficiencyFactor(vw))
+    tmatch = tmpl.findMatching(vw)
+    if tmatch is None or tmatch[0] is None or not np.all(np.isfinite(np.array(tmatch, float))):
+        return
+    mt = {"vw": vw, "vp": float(tmatch[0]), "vm": float(tmatch[1]), "Tp": float(tmatch[2]),
+          "Tm": float(tmatch[3])}
+    cls_t = probe.classify(mt) if vw <= tmpl.vJ else "detonation"
+    k_ref, isw, irw = kappa_ref(probe, mt, cls_t)
+    tolk = (3e-2 if cls_t != "deflagration" else 1e-2) * max(abs(k_ref), 1e-12)
+    mon["template.efficiencyFactor"] = mon.get("template.efficiencyFactor", 0) + 1
+    row["kappa_template_rel"] = (kt - k_ref) / max(abs(k_ref), 1e-300)
+    if not np.isfinite(kt) or abs(kt - k_ref) > tolk:
+        viol.append({"mech": f"template-kappa-not-the-flow-integral-{cls_t}",
+                     "msg": f"template efficiencyFactor({vw:.6g})={kt:.8g} vs reference "
+                     f"{k_ref:.8g} on its own matching ({cls_t}; shock part {isw:.3e}, "
+                     f"rarefaction part {irw:.3e}; rel {(kt - k_ref) / k_ref:.2e}, tol "
+                     f"{tolk / abs(k_ref):.0e})", "data": {"spec": spec, **mt}})
+    if cls_t != "detonation":
+        tn_t, _, prof_t = ref(vw, mt["vp"], mt["Tp"])
+        tol_t = 30 * rtol * Tn + 4 * atol + 1e-6 * Tn
+        mon["template_flow_checks"] = mon.get("template_flow_checks", 0) + 1
+        if abs(tn_t - Tn) > tol_t:
+            viol.append({"mech": f"template-flow-does-not-reach-Tn-{cls_t}",
+                         "msg": f"template {cls_t} vw={vw:.6g} on {spec}: reference flow from "
+                         f"(v+={mt['vp']:.6g}, T+={mt['Tp']:.6g}) arrives at T_n'={tn_t:.9g} "
+                         f"vs T_n={Tn:.9g} (rel {(tn_t - Tn) / Tn:.2e})",
+                         "data": {"spec": spec, **mt}})
 
 
 def run_case(case):
@@ -226,6 +266,13 @@ def run_case(case):
                                  f"(diff {e:.2e} > tol {tol_d:.1e}; form {pr['form']})",
                                  "data": {"spec": spec}})
         # ---- efficiency factor (accurate objects only)
+        if rtol > 1e-8 and is_template_form:
+            try:
+                template_checks(probe, spec, vw, rtol, atol, Tn, mon, viol, row, ref, acc=True)
+            except (F.RefCapExceeded, F.RefFailed):
+                pass
+            except Exception as exc:
+                row["template_error"] = repr(exc)[:100]
         if rtol <= 1e-8:
             try:
                 k_code = float(hyd.efficiencyFactor(vw))
@@ -247,62 +294,8 @@ def run_case(case):
                                  f"rarefaction part {irw:.3e}; rel "
                                  f"{(k_code - k_ref) / k_ref:.2e}, tol "
                                  f"{tolk / abs(k_ref):.0e})", "data": {"spec": spec, **m}})
-                # the closed-form template solver's efficiency factor, on its home turf
-                if is_template_form and vw >= probe.tmpl.vMin:
-                    nodes = []
-                    real_ip = probe.tmpl.integratePlasma
-
-                    def rec_ip(*a, **k):
-                        sol = real_ip(*a, **k)
-                        nodes.append(len(sol.t))
-                        return sol
-
-                    probe.tmpl.integratePlasma = rec_ip
-                    try:
-                        kt = float(probe.tmpl.efficiencyFactor(vw))
-                        tmatch = probe.tmpl.findMatching(vw)
-                    finally:
-                        del probe.tmpl.integratePlasma
-                    if tmatch is None or tmatch[0] is None:
-                        raise F.RefFailed("template returned no matching")
-                    mt = {"vw": vw, "vp": float(tmatch[0]), "vm": float(tmatch[1]),
-                          "Tp": float(tmatch[2]), "Tm": float(tmatch[3])}
-                    # "that same flow profile": the template's kappa is judged on the
-                    # template's own matching
-                    cls_t = probe.classify(mt)
-                    k_ref, isw, irw = kappa_ref(probe, mt, cls_t)
-                    tolk = (3e-2 if cls_t != "deflagration" else 1e-2) * max(abs(k_ref), 1e-12)
-                    # and the template's matched flow must reach T_n as well
-                    if cls_t != "detonation":
-                        tn_t, _, prof_t = ref(vw, mt["vp"], mt["Tp"])
-                        tol_t = 30 * rtol * Tn + 4 * atol + 1e-9 * Tn
-                        # v+ root of the template solver: xtol=atol, rtol; slope measured on
-                        # the general solver's 2x2 matching is not available here, so use the
-                        # template's own closed form through a finite difference in v+
-                        if abs(tn_t - Tn) > tol_t + 1e-6 * Tn:
-                            viol.append({"mech": f"template-flow-does-not-reach-Tn-{cls_t}",
-                                         "msg": f"template {cls_t} vw={vw:.6g} on {spec}: "
-                                         f"reference flow from (v+={mt['vp']:.6g}, "
-                                         f"T+={mt['Tp']:.6g}) arrives at T_n'={tn_t:.9g} vs "
-                                         f"T_n={Tn:.9g} (rel {(tn_t - Tn) / Tn:.2e})",
-                                         "data": {"spec": spec, **mt}})
-                        mon["template_flow_checks"] = mon.get("template_flow_checks", 0) + 1
-                    mon["template.efficiencyFactor"] = mon.get("template.efficiencyFactor", 0) + 1
-                    row["kappa_template_rel"] = (kt - k_ref) / max(abs(k_ref), 1e-300)
-                    if not np.isfinite(kt) or abs(kt - k_ref) > tolk:
-                        mech = f"template-kappa-not-the-flow-integral-{cls}"
-                        if cls == "deflagration" and nodes and min(nodes) <= 12:
-                            # Simpson's rule over the <= 12 adaptive ODE nodes of a thin,
-                            # weak shock shell (slow wall): the quadrature, not the flow,
-                            # is off
-                            mech = "template-kappa-simpson-on-few-ode-nodes"
-                        viol.append({"mech": mech,
-                                     "msg": f"template efficiencyFactor({vw:.6g})={kt:.8g} vs "
-                                     f"reference {k_ref:.8g} ({cls}; shock part {isw:.3e}, "
-                                     f"rarefaction part {irw:.3e}; rel "
-                                     f"{(kt - k_ref) / k_ref:.2e}, tol {tolk / abs(k_ref):.0e}; "
-                                     f"ODE nodes {nodes})",
-                                     "data": {"spec": spec, **m}})
+                if is_template_form:
+                    template_checks(probe, spec, vw, rtol, atol, Tn, mon, viol, row, ref)
             except (F.RefCapExceeded, F.RefFailed):
                 pass
             except Exception as exc:
